@@ -183,7 +183,7 @@ func (s *Session) RunJob(job Job) (res JobResult) {
 		}
 		found := false
 		for _, p := range s.prog.AllPackages() {
-			if covPkgs[p.Pkg.Path()] && p.Func(k) != nil {
+			if p.Func(k) != nil {
 				found = true
 			}
 		}
@@ -192,6 +192,7 @@ func (s *Session) RunJob(job Job) (res JobResult) {
 			return
 		}
 	}
+	redirectPkg = s.target
 	redirects = job.Redirects
 	if redirects == nil {
 		redirects = map[string]string{}
